@@ -665,8 +665,8 @@ bit_array_impl!(
     U8_5,
     40,
     bitarr!(const u8, Lsb0; 1, 0, 0, 0, 0, 0, 0, 0, 0, 0, 0, 0, 0, 0, 0, 0, 0, 0, 0, 0, 0, 0, 0, 0, 0, 0, 0, 0, 0, 0, 0, 0, 0, 0, 0, 0, 0, 0, 0, 0),
-    // x^40 + x^5 + x^3 + x^2 + 1
-    0b1_0000_0000_0000_0000_0000_0000_0000_0000_0010_1101_u128,
+    // x^40 + x^5 + x^4 + x^3 + 1
+    0b1_0000_0000_0000_0000_0000_0000_0000_0000_0011_1001_u128,
     infallible,
 );
 
